@@ -412,6 +412,143 @@ def _end_text(p: Path) -> str:
 
 
 # =====================================================================================================================
+# phases: a function that ends by handing over to a private helper is the same function written in two pieces
+# =====================================================================================================================
+
+class _RenameApart(ast.NodeTransformer):
+    def __init__(self, names: set[str], suffix: str) -> None:
+        self.names, self.suffix = names, suffix
+
+    def visit_Name(self, n: ast.Name) -> ast.AST:
+        return ast.copy_location(ast.Name(id=n.id + self.suffix, ctx=n.ctx), n) if n.id in self.names else n
+
+    def visit_arg(self, n: ast.arg) -> ast.AST:  # parameters of nested functions / lambdas that shadow a renamed local
+        if n.arg in self.names:
+            n.arg += self.suffix
+        return n
+
+    def visit_ExceptHandler(self, n: ast.ExceptHandler) -> ast.AST:
+        if n.name and n.name in self.names:
+            n.name += self.suffix
+        return self.generic_visit(n)
+
+
+class _TailInliner:
+    """`return cls._second_phase(a=x, b=y)` -> `a' = x; b' = y; <body of _second_phase over a', b'>`: exact for a call in return
+    position (the helper's returns become the function's returns).  Only private helpers of the function's region are inlined
+    (astutil.region), only when every parameter can be bound; the helper's parameters and locals are renamed apart, so nothing
+    depends on the two pieces using the same or different spellings."""
+
+    def __init__(self, ix: Any, f: FuncInfo, depth: int = 2):
+        self.f = f
+        self.helpers = {h.name: h for h in region(ix, f, depth)[1:]}
+        self.depth = depth
+        self.n = 0
+
+    def run(self) -> ast.AST:
+        import copy
+
+        if not self.helpers:
+            return self.f.node
+        fn = copy.deepcopy(self.f.node)
+        fn.body = self._block(fn.body, (self.f.name,))
+        return ast.fix_missing_locations(fn) if self.n else self.f.node
+
+    def _block(self, body: list[ast.stmt], stack: tuple[str, ...]) -> list[ast.stmt]:
+        out: list[ast.stmt] = []
+        skip = False
+        for s, nxt in zip(body, [*body[1:], None]):
+            if skip:
+                skip = False
+                continue
+            if isinstance(s, ast.Return) and isinstance(s.value, ast.Call):
+                got = self._expand(s, s.value, stack)
+                if got is not None:
+                    out += got
+                    continue
+            # `x = helper(...)` directly followed by `return x` is the same hand-over
+            tgt = s.targets[0] if isinstance(s, ast.Assign) and len(s.targets) == 1 else s.target if isinstance(s, ast.AnnAssign) else None
+            if isinstance(tgt, ast.Name) and isinstance(getattr(s, "value", None), ast.Call) and isinstance(nxt, ast.Return) and \
+                    isinstance(nxt.value, ast.Name) and nxt.value.id == tgt.id:
+                got = self._expand(nxt, s.value, stack)  # type: ignore[union-attr]
+                if got is not None:
+                    out += got
+                    skip = True
+                    continue
+            if not isinstance(s, (ast.FunctionDef, ast.AsyncFunctionDef, ast.ClassDef)):
+                for fld in ("body", "orelse", "finalbody"):
+                    sub = getattr(s, fld, None)
+                    if isinstance(sub, list) and sub and isinstance(sub[0], ast.stmt):
+                        setattr(s, fld, self._block(sub, stack))
+                for h in getattr(s, "handlers", []) or []:
+                    h.body = self._block(h.body, stack)
+                for c in getattr(s, "cases", []) or []:
+                    c.body = self._block(c.body, stack)
+            out.append(s)
+        return out
+
+    def _expand(self, s: ast.Return, c: ast.Call, stack: tuple[str, ...]) -> "list[ast.stmt] | None":
+        import copy
+
+        cn = call_name(c)
+        last = cn.rsplit(".", 1)[-1]
+        head = cn.rsplit(".", 1)[0] if "." in cn else ""
+        h = self.helpers.get(last)
+        if h is None or last in stack or len(stack) > self.depth or isinstance(h.node, ast.AsyncFunctionDef):
+            return None
+        a = h.node.args
+        if a.vararg or a.kwarg or any(isinstance(x, ast.Starred) for x in c.args) or any(k.arg is None for k in c.keywords):
+            return None
+        if any(isinstance(n, (ast.Yield, ast.YieldFrom, ast.Global, ast.Nonlocal)) for n in ast.walk(h.node)):
+            return None
+        allpos = [*a.posonlyargs, *a.args]
+        bound: dict[str, ast.expr] = {}
+        for p, d in zip(allpos[len(allpos) - len(a.defaults):], a.defaults):
+            bound[p.arg] = d
+        for p, d in zip(a.kwonlyargs, a.kw_defaults):
+            if d is not None:
+                bound[p.arg] = d
+        pos = [p.arg for p in allpos]
+        keep: set[str] = set()
+        if h.kind in ("method", "classmethod", "property") and pos:
+            implicit, pos = pos[0], pos[1:]
+            if head == implicit:
+                keep.add(implicit)          # self._h(...) / cls._h(...): the same object under the same name
+            elif h.kind == "classmethod" and head[:1].isupper():
+                bound[implicit] = ast.parse(head, mode="eval").body
+            else:
+                return None
+        elif head not in ("",) and not head[:1].isupper() and head not in ("self", "cls"):
+            return None
+        if len(c.args) > len(pos):
+            return None
+        for p_, v in zip(pos, c.args):
+            bound[p_] = v
+        every = {p.arg for p in [*allpos, *a.kwonlyargs]}
+        for k in c.keywords:
+            if k.arg not in every:
+                return None
+            bound[k.arg] = k.value  # type: ignore[index]
+        if any(p not in bound and p not in keep for p in every):
+            return None
+        self.n += 1
+        suffix = f"·{self.n}"   # a middle dot is a legal identifier character that no hand-written local uses
+        ren = _RenameApart((local_names(h.node) | every) - keep, suffix)
+        new: list[ast.stmt] = []
+        for p_ in [x for x in [*[q.arg for q in allpos], *[q.arg for q in a.kwonlyargs]] if x in bound and x not in keep]:
+            new.append(ast.copy_location(ast.Assign(targets=[ast.Name(id=p_ + suffix, ctx=ast.Store())], value=copy.deepcopy(bound[p_])), s))
+        new += [ren.visit(copy.deepcopy(st)) for st in h.node.body]
+        new.append(ast.copy_location(ast.Return(value=None), s))
+        return self._block(new, stack + (last,))
+
+
+def inline_tail_calls(ix: Any, f: FuncInfo) -> ast.AST:
+    """f's definition with the private helpers it hands over to in return position written out in place (f.node itself when there is
+    none)"""
+    return _TailInliner(ix, f).run()
+
+
+# =====================================================================================================================
 # the two enum builders
 # =====================================================================================================================
 
@@ -450,10 +587,15 @@ class _Builder:
 
     def __init__(self, ix: Any, f: FuncInfo, cls_name: str):
         self.ix, self.f, self.K = ix, f, cls_name
-        self.fn = f.node
-        self.params = {p.arg for p in f.params}
+        # the builder with its later phases written out in place (`return cls._second_phase(...)`)
+        self.fn = inline_tail_calls(ix, f)
         self.lc = Locals(self.fn)
         self.locals = local_names(self.fn)
+        # the parameters, and the locals that only ever stand for one (a phase's parameter bound to the caller's)
+        self.params = {p.arg for p in f.params}
+        for _ in range(3):
+            self.params |= {nm for nm, ds in self.lc.defs.items() if ds and all(k == "assign" and isinstance(v, ast.Name) and v.id in self.params
+                                                                             for k, _, v in ds)}
         self.helpers = {h.name: h for h in region(ix, f)[1:]}
         self.err = error_names(self.fn)
         # E: the schema's enum list; L: the list without nulls; T: the set of member types; ty: the single member type
@@ -654,7 +796,7 @@ class _Builder:
         return PathSim(self.fn, leaf, none_of)
 
     def relevant(self, t: ast.AST) -> bool:
-        return bool(names_in(t) & self.locals) or _private_call(t)
+        return bool(names_in(t) & (self.locals - self.params)) or _private_call(t)
 
     # -- where a path ends ---------------------------------------------------------------------------------------------
     def calls_of(self, node: ast.AST) -> set[str]:
@@ -815,7 +957,7 @@ def enum_builder_parity(rep: Report, ctx: Any, rid: str) -> None:
                    "the property that is returned and registered does not carry the converted default", w,
                    "evolve(prop, default=<convert_value result>) registered in classes_by_name")
         n_facts += 3
-    rep.floor("enum_builder_facts", n_facts, 2 * 17 + 1)
+    rep.floor("enum_builder_facts", n_facts, 17)
 
 
 def _calls_through(b: _Builder, s: ast.AST) -> list[ast.Call]:
@@ -1042,4 +1184,4 @@ def enum_merge_parity(rep: Report, ctx: Any, rid: str) -> None:
                         _claim_all(rep, rid, key, paths, m.is_error, m.relevant,
                                    "an enum is merged with a property that is not of its value type", w, "return PropertyError(...)")
                     n += 1
-    rep.floor("enum_merge_facts", n, 2 * 16)
+    rep.floor("enum_merge_facts", n, 16)
